@@ -84,6 +84,20 @@ W = [
     ('accbaremissing', 'project', {'$sum': '$zz'}, {'_id': 0},
      '$sum / $avg / $min / $max given one bare operand (not a list) that is missing make the '
      'computed field missing; MongoDB answers 0 for $sum and null for the others'),
+    ('partsnull', 'project', {'$dateFromParts': {'year': 2020, 'month': '$a'}}, {'_id': 0, 'a': None},
+     '$dateFromParts with a part that is null or missing: month / day / hour / minute / second / '
+     'millisecond take their default (`value or default`) and a null year is a TypeError; MongoDB '
+     'answers null'),
+    ('partszero', 'project', {'$dateFromParts': {'year': 2020, 'month': 3, 'day': 0}}, {'_id': 0},
+     '$dateFromParts with month or day 0: `value or default` reads 0 as "not given" and takes 1 '
+     '(the 1st of March); MongoDB carries 0 back: the last day of the month before (29 February '
+     '2020), December of the year before for month 0.  "", [] and {} as a part are taken as the '
+     'default too instead of being rejected'),
+    ('partscarry', 'project', {'$dateFromParts': {'year': 2020, 'month': 14}}, {'_id': 0},
+     '$dateFromParts with a part outside its calendar range (month 14, day 31 in April, hour 24, '
+     'second 60, a negative part) raises ValueError out of datetime.datetime(); MongoDB (4.0 and '
+     'later) carries the excess into the next larger unit: February 2021.  (The milliseconds are '
+     'carried: they are added as a timedelta.)'),
     ('andstrict', 'project', {'$and': ['$f', {'$divide': [1, 0]}]}, {'_id': 0, 'f': False},
      '$and parses every operand (a list is built before all()): an operand that raises after '
      'the first false one makes the whole $and raise instead of being skipped'),
